@@ -595,7 +595,8 @@ func (g *Gen) appendB(fr *Frame, st *State, c *ssa.CallCommon) Val {
 		contents = nc
 	}
 	arr := ite(fits, oldArr, fresh)
-	g.frameElems(st, arr, et)
+	// an in-place append writes into the existing backing array (only if something is appended)
+	g.frameElemsIf(st, g.cmp(token.GTR, n, g.idxLit(0), intT), arr, et)
 	g.heapSet(st, k, srt, sx("store", h, arr, contents))
 	return Val{T: g.define("apres", "Slice", sx("mk_slice", arr, off, newLen, ite(fits, oldCap, newCap)))}
 }
